@@ -144,7 +144,7 @@ fn run_many_blocks(rep: &mut Report, rng: &mut Rng, thorough: bool) {
                             rep.fail("xz-roundtrip-mismatch:many-blocks", "XZ round trip returned different bytes", detail());
                         } else if used != c.len() {
                             rep.fail("xz-roundtrip-consumed", "XZ reader did not consume the whole file it wrote", detail());
-                        } else if kind == "const" || thorough {
+                        } else if kind == "const" || (thorough && data.len() <= 600_000) {
                             rep.model(format!("xz.dec multi=0 in={} cap={} reenc=1", hex(&c), data.len() + 16), format!("ok {} {} {} 1", data.len(), fnv(&data), c.len()));
                         }
                     }
